@@ -37,6 +37,9 @@ Toks == {
   T("hash", "#abc", "HASH", "#abc"), T("hash-digit", "#1a", "HASH", "#1a"),
   T("string-dq", "\"s'\"", "STRING", "\"s'\""), T("string-sq", "'s'", "STRING", "'s'"), T("string-esc", "\"a~\"b\"", "STRING", "\"a~\"b\""),
   T("string-hex", "\"~41 b\"", "STRING", "\"Ab\""), T("string-cont", "\"a~^nb\"", "STRING", "\"ab\""), T("string-empty", "\"\"", "STRING", "\"\""),
+  \* the one white space that ends a hex escape may be CR LF (one terminator, not two), a lone CR, a tab or a form feed
+  T("string-hex-crlf", "\"~41^r^nb\"", "STRING", "\"Ab\""), T("string-hex-cr", "'~41^rb'", "STRING", "'Ab'"), T("string-hex-tab", "\"~41^t^tb\"", "STRING", "\"A^tb\""),
+  T("ident-hex-crlf", "~61^r^nb", "IDENT", "ab"), T("uri-hex-crlf", "url(~61^r^nb)", "URI", "url(ab)"),
   T("uri", "url(x)", "URI", "url(x)"), T("uri-quoted", "url( \"x\" )", "URI", "url( \"x\" )"), T("uri-upper", "URL(x)", "URI", "URL(x)"),
   T("uri-empty", "url()", "URI", "url()"), T("uri-esc", "u~72l(x)", "URI", "url(x)"),
   T("number", "12", "NUMBER", "12"), T("number-frac", ".5", "NUMBER", ".5"), T("number-neg", "-1.50", "NUMBER", "-1.50"), T("number-plus", "+1", "NUMBER", "+1"),
@@ -56,16 +59,16 @@ Toks == {
 
 Seps == {"none", "sp", "tab", "lf", "crlf", "ff", "comment"}
 \* classes of token ids that may glue with a neighbour when written without separator
-NameLike  == {"ident", "ident-upper", "ident-dash", "ident-hex", "ident-hex6", "ident-simple", "ident-nonascii", "ident-astral", "hash-astral",
+NameLike  == {"ident-hex-crlf", "ident", "ident-upper", "ident-dash", "ident-hex", "ident-hex6", "ident-simple", "ident-nonascii", "ident-astral", "hash-astral",
               "dimension-astral", "and", "at-unknown", "at-import",
               "at-import-upper", "at-media", "at-page", "at-font-face", "at-namespace", "at-variables", "at-charset-nospace", "hash",
               "hash-digit", "number", "number-frac", "number-neg", "number-plus", "dimension", "dimension-e", "dimension-neg", "urange",
               "urange-q", "uri-esc", "minus", "hashchar", "atchar", "dot", "plus", "function", "function-and", "percentage"}
-StartsNameLike == NameLike \cup {"uri", "uri-quoted", "uri-upper", "uri-empty", "uri-astral", "lparen", "percent", "cdc", "cdo"}
+StartsNameLike == NameLike \cup {"uri-hex-crlf", "uri", "uri-quoted", "uri-upper", "uri-empty", "uri-astral", "lparen", "percent", "cdc", "cdo"}
 \* a separator is needed unless both neighbours are self-delimiting;  this relation is deliberately conservative:
 \* "none" is allowed only between two tokens that cannot combine
 SelfDelimiting == {"lbrace", "rbrace", "rparen", "lbracket", "rbracket", "semicolon", "colon", "comma", "string-dq", "string-sq", "string-esc",
-                   "string-hex", "string-cont", "string-empty", "comment", "comment-stars", "comment-nl"}
+                   "string-hex", "string-cont", "string-empty", "comment", "comment-stars", "comment-nl", "string-hex-crlf", "string-hex-cr", "string-hex-tab"}
 SepOk(a, b, s) == s # "none" \/ (a.id \in SelfDelimiting /\ b.id \in SelfDelimiting \cup {"ident", "number", "hash", "at-media"})
                             \/ (a.id \in {"ident", "number", "percentage", "dimension", "hash"} /\ b.id \in SelfDelimiting)
 \* a comment separator after '/' or before '*' etc. would change the neighbours
